@@ -28,6 +28,9 @@ func init() {
 	Properties["X-MAP"] = &Property{ID: "X-MAP", Level: "other", Run: func(c *Ctx, tier string) []*Result {
 		return []*Result{c.RuleMapOrder(), c.RuleDefFragment(), c.RuleNondetSrc([]string{"generate", "update", "compare", "format"})}
 	}}
+	Properties["X-R7"] = &Property{ID: "X-R7", Level: "other", Run: func(c *Ctx, tier string) []*Result {
+		return []*Result{c.RuleErrorfNil(), c.RuleLineKeep(c.lineKeepScope(), 0), c.RuleLitGuard(), c.RuleLocComment(), c.RuleDefKept(), c.RuleCacheReader()}
+	}}
 	Properties["X-R5"] = &Property{ID: "X-R5", Level: "other", Run: func(c *Ctx, tier string) []*Result {
 		return []*Result{c.RuleReadLine(), c.RuleBorrow(), c.RuleBufwFlush(), c.RuleSearchResume(), c.RuleIdxArray(), c.RuleIncludeFrame(), c.RuleIncludePass(), c.RuleCmdTypeEnum(), c.RuleBuildVars(), c.RuleExclOrder(), c.RuleScanSplit(), c.RuleDoubleWrap(), c.RuleGoShared(), c.RuleCtorDefaults()}
 	}}
